@@ -95,12 +95,15 @@ theorem step_outputs_stamped (cfg : HCfg) (eval : σ → SFrame → σ × EvalRe
         | error msg =>
           simp only [List.mem_singleton] at ho; subst ho; exact unregistered_stamped _ _ _
         | ok appends ret =>
-          simp only [List.mem_append, List.mem_map] at ho
-          rcases ho with ⟨q, _, rfl⟩ | ho
-          · exact emit_stamped _ _ _
-          · cases ret with
-            | nothing => simp [retFrames] at ho
-            | value j => simp only [retFrames, List.mem_singleton] at ho; subst ho; exact returnFrame_stamped _ _ _
+          simp only at ho
+          split at ho
+          · simp only [List.mem_append, List.mem_map] at ho
+            rcases ho with ⟨q, _, rfl⟩ | ho
+            · exact emit_stamped _ _ _
+            · cases ret with
+              | nothing => simp [retFrames] at ho
+              | value j => simp only [retFrames, List.mem_singleton] at ho; subst ho; exact returnFrame_stamped _ _ _
+          · simp only [List.mem_singleton] at ho; subst ho; exact unregistered_stamped _ _ _
 
 /-- C16: a stopped instance processes nothing further -/
 theorem stopped_inert (cfg : HCfg) (eval : σ → SFrame → σ × EvalRes) (env : σ) (l : List SFrame) :
@@ -150,10 +153,23 @@ theorem error_is_all_or_nothing (cfg : HCfg) (eval : σ → SFrame → σ × Eva
     `<name><suffix>` with the configured ttl (nothing for a `nothing` return) -/
 theorem success_outputs (cfg : HCfg) (eval : σ → SFrame → σ × EvalRes) (env env' : σ) (f : SFrame)
     (appends : List OutReq) (ret : Ret) (hd : dispatch cfg f = .invoke)
-    (he : eval env f = (env', .ok appends ret)) :
+    (he : eval env f = (env', .ok appends ret))
+    (hs : (appends.map (emit cfg f) ++ retFrames cfg f ret).all storable = true) :
     step cfg eval .running env f =
       (.running, env', appends.map (emit cfg f) ++ retFrames cfg f ret, true) := by
-  simp [step, hd, he]
+  simp only [step, hd, he, hs, if_true]
+
+/-- C15 (all-or-nothing): if one frame of the call cannot be stored - a topic with NUL,
+    `xs.context` outside the zero context - none of the call's frames is emitted and the
+    instance stops with one `<name>.unregistered` carrying the error -/
+theorem unstorable_output_fails_call (cfg : HCfg) (eval : σ → SFrame → σ × EvalRes) (env env' : σ) (f : SFrame)
+    (appends : List OutReq) (ret : Ret) (hd : dispatch cfg f = .invoke)
+    (he : eval env f = (env', .ok appends ret))
+    (hs : (appends.map (emit cfg f) ++ retFrames cfg f ret).all storable = false) :
+    step cfg eval .running env f =
+      (.stopped, env', [unregistered cfg f (some "unstorable output")], true) := by
+  simp only [step, hd, he, hs]
+  rfl
 
 /-- C16: a later `.register` / `.unregister` of its name stops the instance with exactly one
     `<name>.unregistered` naming it -/
@@ -218,7 +234,10 @@ theorem step_invoked_eq (cfg : HCfg) (eval : σ → SFrame → σ × EvalRes) (e
     have hd := (dispatch_invoke_iff cfg f).mpr hi
     simp only [step, hd]
     cases he : eval env f with
-    | mk env' r => cases r <;> rfl
+    | mk env' r =>
+      cases r with
+      | error msg => rfl
+      | ok appends ret => simp only []; split <;> rfl
   | false =>
     have hd : dispatch cfg f ≠ .invoke := by
       intro h; rw [(dispatch_invoke_iff cfg f).mp h] at hi; cases hi
